@@ -215,8 +215,11 @@ let () = run (fun case impl ->
   let files = Stdlib.List.rev !files in
   (* the harness writes only plain file names into its private directory *)
   let plain n = n <> "" && n <> "." && n <> ".." && not (Stdlib.String.contains n '/') && not (Stdlib.String.contains n '\\') && not (Stdlib.String.contains n '\000') in
+  (* also relative paths of plain components (sub/a.asm): the model resolves a name against the including file *)
+  let relpath n = n <> "" && Stdlib.List.for_all plain (Stdlib.String.split_on_char '/' n) in
+  let subdirs = Stdlib.List.exists (fun (n, _) -> Stdlib.String.contains n '/') files in
   let fs (p : BinNums.coq_N list) = let s = str_of_bytes p in
-    if plain s then (try Some (Stdlib.List.assoc s files) with Not_found -> None) else None in
+    if relpath s then (try Some (Stdlib.List.assoc s files) with Not_found -> None) else None in
   let root_text = (try Stdlib.List.assoc !root files with Not_found -> []) in
   let dbg = (field impl "dbg=" = "1") in
   count ("stream." ^ stream); note_nontrivial case;
@@ -228,5 +231,15 @@ let () = run (fun case impl ->
   (* (b) spec *)
   (match stream with
    | "C13" -> c13_spec case impl exps
-   | "C05" -> c05_spec case impl fs root_text
+   | "C05" ->
+       (* the reference layout looks files up by the name as written (all files in one directory); a project with
+          sub-directories is judged against the image the generator states (IMG), and by the model comparison above *)
+       if subdirs then begin
+         count "c05.subdir_project";
+         Stdlib.List.iter (fun e -> match split_ws e with
+           | ["IMG"; want] ->
+               count "c05.subdir_image_checked";
+               if field impl "status=" <> "success" || field impl "regions=" <> want then specfail "layout_mismatch" case impl ("status=success regions=" ^ want)
+           | _ -> ()) exps
+       end else c05_spec case impl fs root_text
    | _ -> ()))
